@@ -64,6 +64,7 @@ type Machine struct {
 
 	steps    int
 	MaxSteps int
+	forkAt   map[ssa.Instruction]int // forks taken at each branch instruction on the current path
 	cellSeq  int
 	depth    int
 
@@ -268,6 +269,10 @@ func (m *Machine) Concretize(v IntV, lo, hi int) (int, bool) {
 		}
 		return int(c), true
 	}
+	if hi-lo > 12 {
+		// an unbounded symbolic length/index would mean enumerating every value: outside the fragment
+		panic(Unsupported{"symbolic integer " + v.P.String() + " used as a length or index over a wide range"})
+	}
 	if m.Branch(sym.IntCond(sym.CLt(v.P, sym.PInt(int64(lo))))) {
 		return lo - 1, false
 	}
@@ -320,6 +325,7 @@ func (m *Machine) resetPath() {
 	m.steps = 0
 	m.depth = 0
 	m.Events = nil
+	m.forkAt = nil
 	m.globals = nil
 	m.initDone = nil
 }
@@ -571,7 +577,17 @@ func (m *Machine) execBlock(fr *frame, b *ssa.BasicBlock, prev *ssa.BasicBlock) 
 			if bv.Known {
 				taken = bv.Val
 			} else {
+				before := m.pos
 				taken = m.Branch(bv.C)
+				if m.pos != before {
+					if m.forkAt == nil {
+						m.forkAt = map[ssa.Instruction]int{}
+					}
+					m.forkAt[x]++
+					if m.forkAt[x] > 12 {
+						panic(Unsupported{"loop whose bound is a symbolic integer (the same branch forked more than 12 times on one path)"})
+					}
+				}
 			}
 			if taken {
 				return b.Succs[0], nil, false
